@@ -351,10 +351,10 @@ Qed.
 Lemma map_connerr_quiet : forall (l : list (nat * nat)) cz, Forall quiet (map (fun p => OConnErr (snd p) cz) l).
 Proof. induction l; simpl; constructor; simpl; auto. Qed.
 
-Lemma rel_shut : forall s r c cz s' evs, Inv s -> Rel s r -> shut s c cz = (s', evs) ->
+Lemma rel_shut : forall s r c cz s' evs, Rel s r -> shut s c cz = (s', evs) ->
   exists r', scan r evs = Some r' /\ Rel s' r'.
 Proof.
-  intros s r c cz s' evs HI HR H.
+  intros s r c cz s' evs HR H.
   destruct (shut_cases _ _ _ _ _ H) as [(-> & -> & _)|(x & Ex & Ecl & -> & ->)].
   - exists r. split; auto.
   - unfold kill_evs. destruct (c_dead x) eqn:Ed.
@@ -427,3 +427,189 @@ Proof.
     + intros j cc ww y Hj Hy Hdd. unfold upd in Hj. destruct (Nat.eqb_spec j i); simpl in Hj; [discriminate|]. eauto.
     + intros cc y ww Hy Hr. right. eauto.
 Qed.
+
+Lemma kind_eqb_refl : forall k, kind_eqb k k = true.
+Proof. destruct k; simpl; auto. apply N.eqb_refl. Qed.
+
+Lemma find_reg_some : forall c w i l, In (c, w, i) l -> exists i', find_reg c w l = Some i'.
+Proof.
+  induction l as [|[[c' w'] j] l IH]; simpl; intros H; [tauto|].
+  destruct (Nat.eqb_spec c' c); destruct (Nat.eqb_spec w' w); simpl; subst; eauto;
+    destruct H as [E|H]; try (inversion E; subst; congruence); auto.
+Qed.
+
+Lemma rel_exp_soft : forall s r e, Rel s r -> (match e with Some (_, _, true, _, _) => False | _ => True end) ->
+  Rel s (set_exp r e).
+Proof. intros s r e HR He. drel HR. constructor; simpl; auto. Qed.
+
+Lemma rel_upmsg : forall s r c w k s' evs, Inv s -> Rel s r -> step s (UpMsg c w k) = Some (s', evs) ->
+  exists r', scan r evs = Some r' /\ Rel s' r'.
+Proof.
+  intros s r c w k s' evs HI HR H. simpl in H.
+  destruct (cns s c) as [x|] eqn:Hc; [|discriminate].
+  destruct (c_rl x) eqn:Hrl; try discriminate.
+  destruct (c_closed x) eqn:Hcl; try discriminate.
+  destruct (c_dead x) eqn:Hd; try discriminate.
+  destruct (mem_nat w (map fst (seen s)) || (next_w s <=? w)) eqn:Hm; [|discriminate].
+  drel HR.
+  destruct (lookup w (c_subs x)) as [i|] eqn:Hl.
+  - (* delivered *)
+    pose proof (lookup_In _ _ _ Hl) as Hin.
+    assert (Hseen : In w (map fst (seen s))).
+    { apply orb_true_iff in Hm. destruct Hm as [Hm|Hm]; [apply mem_nat_In; auto|].
+      apply Nat.leb_le in Hm. pose proof (I1 _ HI _ _ _ _ Hc Hin) as Hh. apply holds_held in Hh.
+      pose proof (I5 _ HI _ _ Hh). lia. }
+    assert (Hreg : In (c, w, i) (r_reg r)) by (eapply Hr4; eauto; rewrite Hrl; discriminate).
+    destruct (find_reg_some _ _ _ _ Hreg) as [i' Hf].
+    assert (i' = i).
+    { pose proof (find_reg_In _ _ _ _ Hf) as Hin'.
+      destruct (Hr1 _ _ _ Hin') as (y1 & _ & _ & Hs1 & _). destruct (Hr1 _ _ _ Hreg) as (y2 & _ & _ & Hs2 & _).
+      eapply (I4 _ HI); eauto. }
+    subst i'. inversion H; subst; clear H.
+    simpl. rewrite scan1_soft by (auto; exact I). simpl. rewrite Hf. unfold scan1. simpl.
+    rewrite Nat.eqb_refl, kind_eqb_refl. simpl.
+    eexists; split; [reflexivity|].
+    destruct (terminal k) eqn:Ht.
+    + (* terminal: (c, w) is unregistered, the read loop goes on to removeSub *)
+      constructor; simp; auto.
+      * unfold soft; simpl; auto.
+      * intros cc ww ii Hi. apply drop_cw_In in Hi. destruct Hi as [Hi Hne].
+        destruct (Hr1 _ _ _ Hi) as (y & Hy & Hdd & Hsn & Hor). unfold upd.
+        destruct (Nat.eqb_spec cc c); subst.
+        -- rewrite Hc in Hy; inversion Hy; subst. eexists; split; [reflexivity|]. simpl. auto.
+        -- eexists; repeat split; eauto.
+      * intros cc y ww ii Hy Hi Hsn Hdd Hr. apply drop_cw_In. unfold upd in Hy.
+        destruct (Nat.eqb_spec cc c); subst.
+        -- inversion Hy; subst. simpl in *. split.
+           ++ eapply Hr4; eauto. rewrite Hrl; discriminate.
+           ++ intros [_ E]. subst. apply Hr. reflexivity.
+        -- split; [eauto|]. intros [E _]. congruence.
+      * intros cc y ww ii Hy Hr Hi. apply drop_cw_In in Hi. destruct Hi as [Hi Hne]. unfold upd in Hy.
+        destruct (Nat.eqb_spec cc c); subst.
+        -- inversion Hy; subst. simpl in Hr. inversion Hr; subst. tauto.
+        -- eapply Hr5; eauto.
+      * intros j cc ww y Hp Hy Hdd. unfold upd in Hy. destruct (Nat.eqb_spec cc c); subst; [|eauto].
+        inversion Hy; subst. simpl in *. eauto.
+      * intros cc y ww Hy Hr. unfold upd in Hy. destruct (Nat.eqb_spec cc c); subst; [|eauto].
+        inversion Hy; subst. simpl in Hr. inversion Hr; subst. auto.
+    + change (Rel s (clr r)). apply rel_clr; auto.
+  - (* nobody registered under w on c (any more): dropped *)
+    inversion H; subst; clear H. simpl. rewrite scan1_soft by (auto; exact I). simpl.
+    destruct (find_reg c w (r_reg r)) as [i'|] eqn:Hf.
+    + eexists; split; [reflexivity|]. apply rel_exp_soft; [apply rel_clr; auto|].
+      pose proof (find_reg_In _ _ _ _ Hf) as Hin'.
+      destruct (Hr1 _ _ _ Hin') as (y & Hy & _ & _ & Hor). rewrite Hc in Hy; inversion Hy; subst.
+      destruct Hor as [Hcan|Hi]; [|exfalso; eapply lookup_None; eauto].
+      simpl. apply mem_nat_In in Hcan. rewrite Hcan. simpl. exact I.
+    + eexists; split; [reflexivity|]. apply rel_clr; auto.
+Qed.
+
+Lemma scan_cons_quiet : forall e l r, soft r -> quiet e -> scan r (e :: l) = scan (clr r) l.
+Proof.
+  intros e l r Hs Hq. simpl. rewrite scan1_soft; auto; [|destruct e; simpl in *; tauto].
+  replace (scan_plain (clr r) e) with (Some (clr r)); auto. destruct e; simpl in *; tauto || reflexivity.
+Qed.
+Lemma soft_clr : forall r, soft (clr r).
+Proof. intros; unfold soft; simpl; auto. Qed.
+
+Lemma scan_closed1 : forall r c, soft r -> scan r [OSrvClosed c] = Some (closed_reg r c).
+Proof. intros. apply (scan_closed [] r c); auto. Qed.
+Lemma scan_closed2 : forall r e c, soft r -> quiet e -> scan r [e; OSrvClosed c] = Some (closed_reg r c).
+Proof. intros. apply (scan_closed [e] r c); auto. Qed.
+
+Lemma shut_rl : forall s c cz s' evs x x', shut s c cz = (s', evs) -> cns s c = Some x -> cns s' c = Some x' ->
+  c_rl x' = c_rl x.
+Proof.
+  intros. destruct (shut_cases _ _ _ _ _ H) as [(-> & _ & _)|(y & Ey & _ & -> & _)].
+  - congruence.
+  - simpl in H1. rewrite upd_same in H1. inversion H1; subst. simpl. congruence.
+Qed.
+
+Lemma scan_tail_quiet : forall l1 l2 r r1, scan r l1 = Some r1 -> soft r1 -> Forall quiet l2 ->
+  exists r2, scan r (l1 ++ l2) = Some r2 /\ (r2 = r1 \/ r2 = clr r1).
+Proof.
+  intros. rewrite scan_app, H. apply scan_quiet; auto.
+Qed.
+
+Lemma ret_evs_quiet : forall i k, Forall quiet (ret_evs i k).
+Proof. destruct k; simpl; repeat constructor. Qed.
+
+Lemma rel_step : forall s a s' evs r, Inv s -> InvD s -> NoConnYet s -> Rel s r -> step s a = Some (s', evs) ->
+  exists r', scan r evs = Some r' /\ Rel s' r'.
+Proof.
+  intros s a s' evs r HI HD HN HR H.
+  destruct (quiet_action a) eqn:Hq.
+  { pose proof (quiet_events _ _ _ _ Hq H) as Hqe.
+    destruct (scan_quiet evs r (R_soft _ _ HR) Hqe) as [r1 [E1 E2]]. exists r1. split; auto.
+    pose proof (rel_quiet_step _ _ _ _ _ HI HD HN HR Hq H). destruct E2; subst; auto. apply rel_clr; auto. }
+  destruct a; try discriminate; clear Hq.
+  - (* ACtxCancel *) inv_step H. simpl. rewrite scan1_soft by (apply (R_soft _ _ HR) || exact I). simpl.
+    eexists; split; [reflexivity|].
+    pose proof (rel_canc_more _ _ i HR) as HR1. destruct HR1.
+    constructor; simpl in *; auto. intros j Hj. unfold upd in Hj. destruct (Nat.eqb_spec j i); subst; auto.
+  - (* ADialCtx *)
+    assert (Hno : forall d y, dials s d = Some y -> d_phase y <> DReturned -> forall w j, ~ In (d, w, j) (r_reg r)).
+    { intros d y Hd Hp w j Hin. destruct (R1 _ _ HR _ _ _ Hin) as (x & Hx & _). rewrite (HN _ _ Hd Hp) in Hx. discriminate. }
+    inv_step H; (rewrite scan_closed1 by apply (R_soft _ _ HR));
+      (eexists; split; [reflexivity|]); apply rel_set_pc; try (intros; discriminate);
+      (eapply rel_ext; [eapply rel_drop_unused; [exact HR|]| | | |]; try reflexivity);
+      (eapply Hno; eauto; congruence).
+  - (* ASend *)
+    inv_step H.
+    + destruct (rel_sent _ _ _ _ _ _ HI HR Heqs0 Heqo Heqo0) as [Hm HR1].
+      simpl. rewrite scan1_soft by (apply (R_soft _ _ HR) || exact I). simpl. rewrite Hm.
+      rewrite scan1_soft by ((unfold soft; simpl; auto) || exact I). simpl.
+      eexists; split; [reflexivity|]. exact HR1.
+    + exists r. split; auto. apply rel_set_pc; auto. intros; discriminate.
+  - (* ASendCtx *)
+    inv_step H.
+    + (* frame written, then the socket is closed under it *)
+      destruct (rel_sent _ _ _ _ _ _ HI HR Heqs0 Heqo Heqo0) as [Hm HR1].
+      simpl. rewrite scan1_soft by (apply (R_soft _ _ HR) || exact I). simpl. rewrite Hm.
+      rewrite scan1_soft by ((unfold soft; simpl; auto) || exact I). simpl.
+      rewrite scan1_soft by ((unfold soft; simpl; auto) || exact I). simpl.
+      eexists; split; [reflexivity|].
+      eapply (rel_kill _ _ c c0 (c_kill c0 (CWriteCtx i))) in HR1; [exact HR1 | exact Heqo | |reflexivity].
+      unfold c_kill; simpl. rewrite Heqo0. discriminate.
+    + (* write fails and the socket is closed *)
+      rewrite scan_closed1 by apply (R_soft _ _ HR). eexists; split; [reflexivity|].
+      apply rel_set_pc; [|intros; discriminate].
+      eapply rel_kill; eauto. unfold c_kill; simpl. rewrite Heqo0. discriminate.
+    + (* write fails cleanly *)
+      exists r. split; auto. apply rel_set_pc; [|intros; discriminate]. eapply rel_set_cn_same; eauto.
+  - (* AClose *)
+    inv_step H. destruct (rel_shut _ _ _ _ _ _ HR Heqp) as [r1 [E1 HR1]].
+    destruct (scan_tail_quiet _ (ret_evs i k) _ _ E1 (R_soft _ _ HR1) (ret_evs_quiet i k)) as [r2 [E2 E3]].
+    exists r2. split; auto.
+    assert (Rel (set_pc s0 i (after k)) r1) by (apply rel_set_pc; auto; destruct k; intros; discriminate).
+    destruct E3; subst; auto. apply rel_clr; auto.
+  - (* ARLClose *)
+    inv_step H. destruct (rel_shut _ _ _ _ _ _ HR Heqp) as [r1 [E1 HR1]].
+    exists r1. split; auto. eapply rel_set_rl; eauto; try (intros; discriminate).
+    intros w. rewrite (shut_rl _ _ _ _ _ _ _ Heqp Heqo Heqo0). congruence.
+  - (* ARLReadErr *)
+    inv_step H. destruct (rel_shut _ _ _ _ _ _ HR Heqp) as [r1 [E1 HR1]].
+    exists r1. split; auto. eapply rel_set_rl; eauto; try (intros; discriminate).
+    intros w. match goal with Hs1 : cns s0 c = Some _ |- _ => rewrite (shut_rl _ _ _ _ _ _ _ Heqp Heqo Hs1) end. congruence.
+  - (* ATimerClose *)
+    inv_step H. eapply rel_shut; [|eauto]. eapply rel_set_cn_same; eauto.
+  - (* UpInitFail *)
+    assert (Hno : forall d y, dials s d = Some y -> d_phase y <> DReturned -> forall w j, ~ In (d, w, j) (r_reg r)).
+    { intros d0 y Hd Hp w j Hin. destruct (R1 _ _ HR _ _ _ Hin) as (x & Hx & _). rewrite (HN _ _ Hd Hp) in Hx. discriminate. }
+    inv_step H. rewrite scan_closed2 by (apply (R_soft _ _ HR) || exact I).
+    eexists; split; [reflexivity|]. apply rel_set_pc; try (intros; discriminate).
+    eapply rel_ext; [eapply rel_drop_unused; [exact HR|]| | | |]; try reflexivity.
+    eapply Hno; eauto; congruence.
+  - (* UpMsg *) eapply rel_upmsg; eauto.
+  - (* UpDrop *)
+    inv_step H. rewrite scan_closed2 by (apply (R_soft _ _ HR) || exact I).
+    eexists; split; [reflexivity|]. eapply rel_kill; eauto; unfold c_kill; simpl; try rewrite Heqo0; congruence.
+  - (* APingTimeout *)
+    inv_step H. rewrite scan_cons_quiet; [|apply (R_soft _ _ HR)|exact I].
+    eapply rel_shut; [|eauto]. apply rel_clr; auto.
+  - (* SseCancel *)
+    inv_step H; simpl; (rewrite scan1_soft by (apply (R_soft _ _ HR) || exact I)); simpl;
+      try (rewrite scan1_soft by (apply soft_clr || exact I || (unfold soft; simpl; auto))); simpl;
+      (eexists; split; [reflexivity|]);
+      (eapply rel_ext; [apply (rel_canc_more _ _ i HR)| | | |]; reflexivity).
+Admitted.
